@@ -6,7 +6,7 @@ from ..alnmon import rnd_seq, mutate
 
 ID = "C08"
 LEVEL = "exploration"
-ENGINES = ["alnmon", "sanrun"]
+ENGINES = ["alnmon", "climon", "sanrun"]
 TECHNIQUE = "reference-model monitor on IndexedPrefix/SuffixAdapters.match_to + differential observer index vs one-by-one (AdapterCutter(index=True/False)), permuted adapter order; ASan/UBSan (thorough)"
 LEVEL_TEXT = ("Generated sets of 2-6 anchored ACGT adapters (equal and mixed lengths, near-duplicates, up to three allowed errors, "
               "indels on/off) and reads built from mutated adapters, reads shorter than the longest indexed string, reads equal to "
@@ -247,9 +247,69 @@ def run_set(ctx, rng, setd):
             ctx.san_check(lambda: dict(set=setd, read=read))
 
 
+def cli_case(ctx, k):
+    """--no-index vs the default at the command line: well separated equal-length anchored adapters without indels
+    (no read can be within tolerance of two of them), so both runs must write identical files."""
+    import os
+    import shutil
+    from .. import climon, gen_cli as G
+
+    rng = ctx.rng("c08cli", k)
+    prefix = rng.random() < 0.5
+    L = rng.randint(8, 12)
+    kerr = rng.choice([0, 1, 2])
+    ads = []
+    tries = 0
+    while len(ads) < rng.randint(2, 5) and tries < 200:
+        tries += 1
+        s = G.rnd(rng, L)
+        if all(sum(a != b for a, b in zip(s, t)) >= 2 * kerr + 2 for t in ads):
+            ads.append(s)
+    if len(ads) < 2:
+        return
+    recs = []
+    for i in range(40):
+        a = rng.choice(ads)
+        core = G.mutate_sub(rng, a, rng.randint(0, kerr + 1))
+        rest = G.rnd(rng, rng.randint(0, 15))
+        s = core + rest if prefix else rest + core
+        if rng.random() < 0.15:
+            s = G.rnd(rng, rng.randint(0, 20))
+        recs.append((f"r{i}", s, "I" * len(s)))
+    d = os.path.join(ctx.scratch, f"cli{k}")
+    os.makedirs(d, exist_ok=True)
+    try:
+        inputs = climon.write_inputs(d, recs)
+        argv = []
+        for i, a in enumerate(ads):
+            argv += ["-g", f"x{i}=^{a}"] if prefix else ["-a", f"x{i}={a}$"]
+        argv += ["-e", str(kerr) if kerr else "0", "--no-indels", "--rename", "{id} {adapter_name}"]
+        r1 = climon.run(d, argv + ["-o", "idx.fq"] + inputs, tag="idx", trace=False)
+        r2 = climon.run(d, argv + ["--no-index", "-o", "noidx.fq"] + inputs, tag="noidx", trace=False)
+        ctx.count("cli_pairs")
+        if r1.rc != 0 or r2.rc != 0:
+            ctx.count("cli_runs_failed")
+            return
+        a = open(os.path.join(d, "idx.fq")).read()
+        b = open(os.path.join(d, "noidx.fq")).read()
+        ctx.case(("cli", str(argv), str(recs[:3])))
+        if a != b:
+            la, lb = a.split("\n"), b.split("\n")
+            j = next(i for i, (x, y) in enumerate(zip(la, lb)) if x != y)
+            case = climon.case_record(argv + inputs, d, inputs)
+            case["cli_k"] = k
+            ctx.violation("cli-index-vs-no-index", f"default and --no-index runs differ at line {j+1}: {la[j-1:j+1]} vs {lb[j-1:j+1]}; "
+                          f"adapters {ads} (pairwise distance >= {2*kerr+2}), e={kerr}; argv={argv}", case)
+    finally:
+        shutil.rmtree(d, ignore_errors=True)
+
+
 def run_shard(ctx):
+    if ctx.variant == "plain":
+        for k in range(ctx.scale(6, 100)):
+            cli_case(ctx, ctx.shard * 100000 + k)
     rng = ctx.rng("c08")
-    n = ctx.scale(220, 8000) if ctx.variant == "plain" else ctx.scale(60, 1000)
+    n = ctx.scale(150, 8000) if ctx.variant == "plain" else ctx.scale(60, 1000)
     for i in range(n):
         if ctx.out_of_time():
             ctx.count("stopped_on_time_budget")
@@ -258,6 +318,10 @@ def run_shard(ctx):
 
 
 def replay(ctx, case):
+    if case.get("cli"):
+        ctx.shard = case["cli_k"] // 100000
+        cli_case(ctx, case["cli_k"])
+        return
     import cutadapt.adapters as A
     from cutadapt.modifiers import AdapterCutter
 
